@@ -24,6 +24,8 @@ package query
 //@   opt nopanic=off
 //@   opt inline=off
 //@   opt precall=off
+//@   callsite (BuildState).ShouldInclude trackresult included bool: result
+//@   callsite continue a_label_is_skipped_only_if_filtered_out_or_visited_itself [C23]: !included || done[l]
 //@   callsite printTarget strictly_inside_the_limit [C23]: currentLevel != targetLevel && arg_currentLevel == currentLevel
 //@   callsite printTargetDot strictly_inside_the_limit [C23]: currentLevel != targetLevel && arg_parent == target
 //@   callsite deps one_step_deeper_unless_a_hidden_sibling [C23]: arg_targetLevel == targetLevel && arg_done == done && \
